@@ -472,7 +472,9 @@ func makeRun(p params) explore.RunFunc {
 			second := strings.Replace(strings.Replace(cfgText[i:], "name: out1", "name: out2", 1), "rootPath: "+filepath.Join(w.root, "q"), "rootPath: "+filepath.Join(w.root, "q2"), 1)
 			// the second output does not hide the source field: its records are bigger, so under a byte limit its chunks are cut
 			// at other records than the first output's
-			second = strings.Replace(second, "hiddenFields: [source]", "hiddenFields: []", 1)
+			if p.chunkBytes > 0 {
+				second = strings.Replace(second, "hiddenFields: [source]", "hiddenFields: []", 1)
+			}
 			cfgText += second
 		}
 		if p.reload != "" {
@@ -1488,7 +1490,8 @@ func scenarios(prop string) []*explore.Scenario {
 		nd := params{name: "nodir/healthy/2conn-3rec", conns: [][]op{{L("appA"), L("appB")}, {L("appA")}}, gens: 2, chunkRecs: 2, memCap: 2, opt: fakeup.Options{}, flushAlt: true, noDir: true, advances: 1}
 		add(nd, 1, 2)
 	}
-	if prop == "C01" || prop == "C19" {
+	if prop == "C01" {
+		// (the counters of the overflow regime are decided at the buffer level, C19 part 2)
 		// documented discard: the queue capacity (2 chunks) overflows while the upstream is down; every lost record is
 		// covered by the dropped-chunk counter
 		ovf := params{name: "queue-overflow/1conn-6rec-1key", conns: [][]op{{L("appA"), L("appA"), L("appA"), L("appA"), L("appA"), L("appA")}}, gens: 3, chunkRecs: 1, memCap: 0, gen0Down: true, queueCap: 2, opt: full, advances: 1}
